@@ -130,8 +130,15 @@ class Memo:
     def __init__(self, m):
         self.m = m
         self.t = {}
+        self.held = histsim.Held(keep=6)
 
     def observe(self, ctx, stage, mode, idx, outs, opi, n_batch):
+        ch_h = self.held.changed()
+        if ch_h is not None:
+            ctx.violate("c11.result_overwritten", f"output {ch_h[2]} returned by {ch_h[1]} at op {ch_h[0]} changed while the caller held it (overwritten by a later call, before op {opi} returned)", sig=f"{ch_h[1]}:aliasing")
+            self.held.items.clear()
+        if len(idx) <= 4096:
+            self.held.hold(opi, stage, [o for o in outs if isinstance(o, np.ndarray)])
         idx = np.asarray(idx, dtype=np.int64)
         key = (stage, mode)
         rows = []
@@ -296,7 +303,7 @@ def scn_history(ctx):
     memo = Memo(m)
     n_ops = 5 + ch.draw(28 if not big else 10, "n_ops")
     cheap = ("geom", "tau_exit_prob", "tau_energy_u", "tau_energy_const", "taus_call", "altDec", "geom_call_seeded", "spec")
-    allst = cheap + ("too", "radio", "eas", "eas", "too", "radio", "altDec_seeded", "taus_call_seeded", "radio_seeded", "mcint", "mcint_too")
+    allst = cheap + ("too", "radio", "eas", "eas", "too", "radio", "altDec_seeded", "taus_call_seeded", "radio_seeded", "mcint", "mcint_too", "eas")
     last_throw = {}
     stages = cheap if big else allst
     maxlen = 20001 if big else 48
@@ -316,6 +323,13 @@ def scn_history(ctx):
                 idx = [(a + k * stride) % m for k in range(n)]
                 if n > 8192:
                     ctx.probes["batch_gt_8192"] += 1
+            elif st == "eas" and ch.draw(16, "eas_big") == 15:
+                # more than 100 in-range showers (more than one dask partition), built by
+                # repeating the pool's in-range events
+                inr = np.nonzero((P["altDec"] >= 0) & (P["altDec"] <= 20))[0]
+                k = 101 + ch.draw(40, "eas_big_n")
+                idx = list(np.resize(np.roll(inr, ch.draw(len(inr), "eas_big_roll")), k)) if len(inr) else [0]
+                ctx.probes["optical_batch_gt_100_in_range"] += 1
             else:
                 idx = histsim.draw_indices(ch, m, 10 if st == "eas" else maxlen if not big else 64)
             idx = np.asarray(idx, dtype=np.int64)
